@@ -31,8 +31,12 @@ def histories(tier):
     props = [['p_' + t, t, (G.POOLS[t][i % len(G.POOLS[t])] if t != 'String' else 'é日'.encode()).hex()]
              for i, t in enumerate(G.PROP_TYPES)]
     for ta in G.T17:
-        for tb in (G.T17 if tier == 'thorough' else ['Int16', 'TimeStamp', 'String', 'ComplexSingleFloat']):
+        for tb in G.T17:
             out.append(('pair', [G.seg([(A, full(ta, 2)), (B, full(tb, 3))], chunks=2)]))
+            if tier == 'thorough' or tb in ('Int16', 'TimeStamp', 'String', 'ComplexSingleFloat'):
+                # two segments, the second one restating only A ("same as before") - 4 byte-order assignments
+                out.append(('pair-2seg', [G.seg([(A, full(ta, 2)), (B, full(tb, 1))], chunks=1),
+                                          G.seg([(A, ['SAME'])], newlist=False, chunks=2)]))
             if ta != 'String' and tb != 'String':
                 out.append(('pair-il', [G.seg([(A, full(ta, 2)), (B, full(tb, 2))], chunks=2, interleaved=True)]))
         # three segments: full, inherited, metadata-less
